@@ -577,7 +577,11 @@ func (group *Group) writev2RtmpSubSessions(bs net.Buffers) {
 		if session.IsFresh || session.ShouldWaitVideoKeyFrame {
 			continue
 		}
-		_ = session.Writev(bs)
+		// 注意，net.Buffers在发送过程中会被修改（已发送的元素被置为nil），
+		// 所以多个session不能共用同一个net.Buffers，每个session使用独立的拷贝（只拷贝切片头，不拷贝数据）
+		sbs := make(net.Buffers, len(bs))
+		copy(sbs, bs)
+		_ = session.Writev(sbs)
 	}
 }
 
